@@ -316,3 +316,172 @@ theorem readFixedThenName_spec (n : Nat) (hn : n ≤ 20) (msg : Bytes) (cur len 
       · rw [hp1]; simp [liftName, Out.mapErr]
 
 end QV.Rdata
+
+namespace QV.Rdata
+open QV QV.Wire QV.Spec
+
+theorem extract_extract0 (msg : Bytes) (cur len : Nat) (h : cur + len ≤ msg.size) :
+    (msg.extract 0 (cur + len)).extract cur (msg.extract 0 (cur + len)).size = msg.extract cur (cur + len) := by
+  apply Array.toList_inj.mp
+  simp
+  have : min (cur + len) msg.size = cur + len := by omega
+  rw [this]
+  have e : cur + len - cur = len := by omega
+  rw [e]
+
+theorem withoutDecompression_spec (v : Bytes → Out RErr Unit) (hv : ∀ r, v r ≠ .panic)
+    (msg : Bytes) (cur len : Nat) (hov : cur + len ≤ USIZE_MAX) (hlen : len ≤ 65535) :
+    withoutDecompression v msg cur len ≠ .panic ∧
+    ∀ r, withoutDecompression v msg cur len = .ok r ↔
+      (cur + len ≤ msg.size ∧ r = msg.extract cur (cur + len) ∧ v r = .ok ()) := by
+  unfold withoutDecompression
+  rcases prepare_cases msg cur len with ⟨h, _⟩ | ⟨_, h2, hp⟩ | ⟨_, h2, hp⟩
+  · omega
+  · rw [hp]; simp; omega
+  · rw [hp]
+    have hsz : (msg.extract 0 (cur + len)).size = cur + len := by simp; omega
+    rw [Out.bind_ok, sliceFrom_ok _ _ (by rw [hsz]; omega), Out.bind_ok, extract_extract0 msg cur len h2]
+    rw [mkRdata_ok _ (by simp; omega)]
+    simp only [Out.bind_ok]
+    have := hv (msg.extract cur (cur + len))
+    cases hvr : v (msg.extract cur (cur + len)) with
+    | ok u =>
+      refine ⟨by simp, fun r => ?_⟩
+      simp only [Out.bind_ok, Out.ok.injEq, h2, true_and]
+      constructor
+      · intro e; subst e; exact ⟨rfl, hvr⟩
+      · rintro ⟨e, _⟩; exact e.symm
+    | err e =>
+      refine ⟨by simp, fun r => ?_⟩
+      simp only [Out.bind_err, reduceCtorEq, false_iff]
+      rintro ⟨_, e', h'⟩
+      subst e'; rw [hvr] at h'; cases h'
+    | panic => exact absurd hvr this
+
+
+/-- `SpecRead` with the format made explicit -/
+def SpecReadFmt (f : Fmt) (msg : Bytes) (cursor rdlength : Nat) (r : List UInt8) : Prop :=
+  cursor + rdlength ≤ msg.size ∧
+  match layoutOf f with
+  | some l => Expands (msg.extract 0 (cursor + rdlength)) l cursor r (cursor + rdlength)
+  | none => r = (msg.extract cursor (cursor + rdlength)).toList ∧ FmtSpec f r
+
+theorem readFmt_spec (f : Fmt) (msg : Bytes) (cur len : Nat) (hov : cur + len ≤ USIZE_MAX)
+    (hlen : layoutOf f = none → len ≤ 65535) :
+    readFmt f msg cur len ≠ .panic ∧
+    ∀ r, readFmt f msg cur len = .ok r ↔ SpecReadFmt f msg cur len r.toList := by
+  have nonlayout : ∀ g : Fmt, layoutOf g = none → len ≤ 65535 →
+      withoutDecompression (validateFmt g) msg cur len ≠ .panic ∧
+      ∀ r, withoutDecompression (validateFmt g) msg cur len = .ok r ↔ SpecReadFmt g msg cur len r.toList := by
+    intro g hg hlen'
+    obtain ⟨h1, h2⟩ := withoutDecompression_spec (validateFmt g) (validateFmt_no_panic g) msg cur len hov hlen'
+    refine ⟨h1, fun r => ?_⟩
+    rw [h2 r]
+    unfold SpecReadFmt
+    rw [hg]
+    simp only [validateFmt_iff, Array.toList_inj]
+  cases f
+  case name =>
+    obtain ⟨h1, h2⟩ := readNameRdata_spec msg cur len hov
+    exact ⟨h1, fun r => by rw [show readFmt .name = readNameRdata from rfl, h2 r, expand?_iff]; rfl⟩
+  case chA =>
+    obtain ⟨h1, h2⟩ := readChA_spec msg cur len hov
+    exact ⟨h1, fun r => by rw [show readFmt .chA = readChA from rfl, h2 r, expand?_iff]; rfl⟩
+  case soa =>
+    obtain ⟨h1, h2⟩ := readSoa_spec msg cur len hov
+    exact ⟨h1, fun r => by rw [show readFmt .soa = readSoa from rfl, h2 r, expand?_iff]; rfl⟩
+  case minfo =>
+    obtain ⟨h1, h2⟩ := readMinfo_spec msg cur len hov
+    exact ⟨h1, fun r => by rw [show readFmt .minfo = readMinfo from rfl, h2 r, expand?_iff]; rfl⟩
+  case mx =>
+    obtain ⟨h1, h2⟩ := readFixedThenName_spec 2 (by omega) msg cur len hov
+    exact ⟨h1, fun r => by rw [show readFmt .mx = readFixedThenName 2 from rfl, h2 r, expand?_iff]; rfl⟩
+  case srv =>
+    obtain ⟨h1, h2⟩ := readFixedThenName_spec 6 (by omega) msg cur len hov
+    exact ⟨h1, fun r => by rw [show readFmt .srv = readFixedThenName 6 from rfl, h2 r, expand?_iff]; rfl⟩
+  all_goals exact nonlayout _ rfl (hlen rfl)
+
+
+theorem prepare_overflow (msg : Bytes) (cur len : Nat) (h : cur + len > USIZE_MAX) :
+    prepareToReadRdata msg cur len = .panic := by
+  simp [prepareToReadRdata, h]
+
+theorem readFmt_overflow (f : Fmt) (msg : Bytes) (cur len : Nat) (h : cur + len > USIZE_MAX) :
+    readFmt f msg cur len = .panic := by
+  have hp := prepare_overflow msg cur len h
+  cases f <;>
+    simp [readFmt, readNameRdata, readChA, readSoa, readMinfo, readMx, readInSrv, readFixedThenName,
+      withoutDecompression, hp]
+
+theorem withoutDecompression_long (v : Bytes → Out RErr Unit) (msg : Bytes) (cur len : Nat) (h : len > 65535)
+    (r : Bytes) : withoutDecompression v msg cur len ≠ .ok r := by
+  unfold withoutDecompression
+  rcases prepare_cases msg cur len with ⟨_, hp⟩ | ⟨_, h2, hp⟩ | ⟨_, h2, hp⟩
+  · rw [hp]; simp
+  · rw [hp]; simp
+  · rw [hp]
+    have hsz : (msg.extract 0 (cur + len)).size = cur + len := by simp; omega
+    rw [Out.bind_ok, sliceFrom_ok _ _ (by rw [hsz]; omega), Out.bind_ok, extract_extract0 msg cur len h2]
+    have : mkRdata (msg.extract cur (cur + len)) = .panic := by
+      unfold mkRdata RDATA_MAX
+      have : (msg.extract cur (cur + len)).size > 65535 := by simp; omega
+      rw [if_pos this]
+    rw [this]; simp
+
+/-- whenever `read` succeeds, the two preconditions of `readFmt_spec` held -/
+theorem readFmt_ok_bounds (f : Fmt) (msg : Bytes) (cur len : Nat) (r : Bytes) (h : readFmt f msg cur len = .ok r) :
+    cur + len ≤ USIZE_MAX ∧ (layoutOf f = none → len ≤ 65535) := by
+  constructor
+  · apply Decidable.byContradiction; intro hc
+    rw [readFmt_overflow f msg cur len (by omega)] at h; cases h
+  · intro hl
+    apply Decidable.byContradiction; intro hc
+    have hlong : len > 65535 := by omega
+    cases f <;> simp [layoutOf] at hl <;> exact withoutDecompression_long _ msg cur len hlong r h
+
+/-! ### spec-level facts about expansion -/
+
+/-- the expansion of the fields of a layout is well-formed RDATA of that layout -/
+theorem expands_splits {buf : Bytes} {l : List Field} {pos : Nat} {r : List UInt8} {e : Nat}
+    (h : Expands buf l pos r e) : ∃ fs, Splits l r fs := by
+  induction h with
+  | nil => exact ⟨[], Splits.nil⟩
+  | name hd tl ih =>
+    obtain ⟨fs, hfs⟩ := ih
+    obtain ⟨hdec, hlen⟩ := hd
+    exact ⟨_, Splits.name ((wireName_iff _).mpr ⟨_, decodes_lname hdec, hlen⟩) hfs⟩
+  | @fixed n ls pos out e hin tl ih =>
+    obtain ⟨fs, hfs⟩ := ih
+    exact ⟨_, Splits.fixed (by simp; omega) hfs⟩
+
+/-- well-formed RDATA lying uncompressed in a buffer is its own expansion -/
+theorem splits_expands {l : List Field} {R : List UInt8} {fs : List (List UInt8)} (h : Splits l R fs) :
+    ∀ (buf : Bytes) (pos : Nat), (buf.extract pos (pos + R.length)).toList = R → pos + R.length ≤ buf.size →
+      Expands buf l pos R (pos + R.length) := by
+  induction h with
+  | nil => intro buf pos _ _; simpa using Expands.nil
+  | @name w rest ls fs hw tl ih =>
+    intro buf pos hx hs
+    simp only [List.length_append] at hx hs
+    obtain ⟨n, hl, h255⟩ := (wireName_iff w).mp hw
+    have hsplit := extract_split buf pos (pos + w.length) (pos + (w.length + rest.length)) (by omega) (by omega)
+    rw [hx] at hsplit
+    obtain ⟨e1, e2⟩ := List.append_inj hsplit (by simp; omega)
+    have hd : DecodesName buf pos w n w.length := ⟨lname_decodes hl buf pos pos e1.symm (by omega), h255⟩
+    have e3 : pos + (w ++ rest).length = pos + w.length + rest.length := by simp; omega
+    rw [e3]
+    have e4 : pos + w.length + rest.length = pos + (w.length + rest.length) := by omega
+    exact Expands.name hd (ih buf (pos + w.length) (by rw [e4]; exact e2.symm) (by omega))
+  | @fixed n f rest ls fs hf tl ih =>
+    intro buf pos hx hs
+    simp only [List.length_append] at hx hs
+    have hsplit := extract_split buf pos (pos + n) (pos + (f.length + rest.length)) (by omega) (by omega)
+    rw [hx] at hsplit
+    obtain ⟨e1, e2⟩ := List.append_inj hsplit (by simp; omega)
+    have e3 : pos + (f ++ rest).length = pos + n + rest.length := by simp; omega
+    rw [e3, e1]
+    have e4 : pos + n + rest.length = pos + (f.length + rest.length) := by omega
+    exact Expands.fixed (by omega) (ih buf (pos + n) (by rw [e4]; exact e2.symm) (by omega))
+
+
+end QV.Rdata
